@@ -54,10 +54,11 @@ Proof. exact same_reading_sound. Qed.
 Print Assumptions C19_same_reading_sound.
 
 (* (3) SNAPSHOTS.  For EVERY history of definition forms (defvar, defparameter, setq, defconstant, defun, defmacro, in
-   any order, with redefinitions) that the interpreter accepts and whose resulting session is inside the guard:
-   every form of the snapshot loads into an empty session, the loaded session has the same variables (value,
-   documentation, constness) and the same functions and macros (lambda list, documentation, body), and its snapshot
-   is the same list of forms (the fixed point). *)
+   any order, with redefinitions) that the interpreter accepts and whose resulting session is inside the guard
+   (variables and constants holding symbols, lists, tables, lambdas, ...; variables without a value; functions that
+   call functions and use macros of any name): every form of the snapshot loads into an empty session, the loaded
+   session has the same variables (value, documentation, constness) and the same functions and macros (lambda list,
+   documentation, body), and its snapshot is the same list of forms (the fixed point). *)
 Theorem C19_snapshot_roundtrip : forall hist s, run empty_session hist = Ok s -> sess_ok s = true ->
   canon (reload_session s) = canon s /\ snapshot (reload_session s) = snapshot s
   /\ forallb (fun b => b) (snd (load_forms empty_session (snapshot s))) = true.
@@ -69,11 +70,13 @@ Theorem C19_history_keys_unique : forall forms s s', keys_nodup s -> run s forms
 Proof. exact run_keys_nodup. Qed.
 Print Assumptions C19_history_keys_unique.
 
-(* the session guard is not vacuous: a history with redefinitions, setq, values of every kind, a constant, functions
-   that call earlier-named ones, a macro *)
+(* the session guard is not vacuous: a history with redefinitions, setq, values of every kind (a symbol, a table with
+   several entries and list values, a list holding a lambda), a list constant, a variable without a value, functions
+   that call later-named ones, a macro used by an earlier-named function; the macro is written first *)
 Theorem C19_snapshot_guard_nonvacuous : exists s, run empty_session ex_history = Ok s /\ sess_ok s = true
-  /\ List.length (s_vars s) = 6 /\ List.length (s_funs s) = 3 /\ List.length (snapshot s) = 14
-  /\ alookup (s_vars s) "*va*" = Some (mkV (Some (Fix 5)) "my x" false).
+  /\ List.length (s_vars s) = 9 /\ List.length (s_funs s) = 4 /\ List.length (snapshot s) = 19
+  /\ alookup (s_vars s) "*va*" = Some (mkV (Some (Fix 5)) "my x" false)
+  /\ map (fun f => match f with L (_ :: Sym n :: _) => n | _ => "" end) (skipn 15 (snapshot s)) = ["ma"; "fa"; "fb"; "zz"].
 Proof. exact ex_history_ok. Qed.
 Print Assumptions C19_snapshot_guard_nonvacuous.
 
@@ -85,17 +88,18 @@ Theorem C19_lambda_list_verbatim : forall ll doc body,
 Proof. exact lambda_list_verbatim. Qed.
 Print Assumptions C19_lambda_list_verbatim.
 
-(* (3c) INSTANCES as values of variables. What the snapshot writes for a value -- flavor instances included, nested
-   without bound, every instance variable's value going through ppValue again (lists quoted, nested instances as
-   nested forms) -- evaluates back to the value in every environment that knows the flavors.
-   PARTIAL with respect to sessions: (3) is proved for sessions without flavors; for sessions with a flavor and
-   instances the model's defflavor / make-instance / send / snapshot are compared with the implementation and the
-   decidable specification is evaluated on every run (self-check code 3), not proved for all histories. *)
-Theorem C19_instance_value_reloads_partial : forall v, snap_safe_i v = true -> forall e, env_ok e -> insts_in e v = true ->
+(* (3c) VALUES in a snapshot. What the snapshot writes for a value -- a quoted symbol, a quoted list of data, a (list
+   ...) form for a list that holds tables or instances, the load form of a table or a lambda, the (let ((inst ...)))
+   form of a flavor instance with every instance variable's value written the same way again, nested without bound --
+   evaluates back to the value in every environment that has the constants of the language and knows the flavors of the
+   instances. (For sessions: (3) is proved for sessions without flavors; for sessions with flavors and instances the
+   model's defflavor / make-instance / send / snapshot are compared with the implementation and the decidable
+   specification is evaluated on every run, self-check code 3.) *)
+Theorem C19_snapshot_value_evaluates_back : forall v, snap_safe v = true -> forall e, env_ok e -> insts_in e v = true ->
   exists f, pp_value v = Ok f /\ eval e f = Ok v.
-Proof. exact inst_value_reloads. Qed.
-Print Assumptions C19_instance_value_reloads_partial.
-Theorem C19_instance_guard_nonvacuous : snap_safe_i ex_instance = true /\ insts_in ex_env ex_instance = true
+Proof. exact value_reloads. Qed.
+Print Assumptions C19_snapshot_value_evaluates_back.
+Theorem C19_instance_guard_nonvacuous : snap_safe ex_instance = true /\ insts_in ex_env ex_instance = true
   /\ bind (pp_value ex_instance) (eval ex_env) = Ok ex_instance.
 Proof. exact ex_instance_ok. Qed.
 Print Assumptions C19_instance_guard_nonvacuous.
@@ -105,27 +109,7 @@ Theorem C19_flavor_session_nonvacuous :
 Proof. exact ex_flavor_history_ok. Qed.
 Print Assumptions C19_flavor_session_nonvacuous.
 
-(* (4) Outside the guards the faithful model violates the specification: the known findings. *)
+(* (4) Outside the guards the faithful model violates the specification: the known finding that has a model. *)
 Theorem C19_rank_zero_refuted : reload (Arr [] [Fix 7] T true) = Err EType /\ loadable (Arr [] [Fix 7] T true) = false.
 Proof. exact rank_zero_refuted. Qed.
 Print Assumptions C19_rank_zero_refuted.
-Theorem C19_snapshot_symbol_refuted :
-  let s := run_or_empty [L [Sym "defvar"; Sym "*sy*"; quote (Sym "abc")]] in
-  sess_ok s = false /\ meets_spec s = false
-  /\ snapshot s = [L [Sym "defvar"; Sym (qual "*sy*")]; L [Sym "setq"; Sym (qual "*sy*"); Sym "abc"]]
-  /\ snd (load_forms empty_session (snapshot s)) = [true; false].
-Proof. exact snapshot_symbol_refuted. Qed.
-Print Assumptions C19_snapshot_symbol_refuted.
-Theorem C19_constant_unquoted_refuted :
-  let s := run_or_empty [L [Sym "defconstant"; Sym "+lc+"; quote (L [Fix 1; Fix 2])]] in
-  sess_ok s = false /\ meets_spec s = false
-  /\ snapshot s = [L [Sym "defconstant"; Sym (qual "+lc+"); L [Fix 1; Fix 2]]]
-  /\ snd (load_forms empty_session (snapshot s)) = [false].
-Proof. exact constant_unquoted_refuted. Qed.
-Print Assumptions C19_constant_unquoted_refuted.
-Theorem C19_unbound_variable_refuted :
-  let s := run_or_empty [L [Sym "defvar"; Sym "*u*"]] in
-  sess_ok s = false /\ meets_spec s = false
-  /\ snapshot s = [L [Sym "defvar"; Sym (qual "*u*")]; L [Sym "setq"; Sym (qual "*u*"); Sym "<unbound>"; Sym "0x00"]].
-Proof. exact unbound_variable_refuted. Qed.
-Print Assumptions C19_unbound_variable_refuted.
